@@ -39,11 +39,17 @@ Definition acc (i : instr) : bool :=
   | IAccept | ISetOpts _ | KAccTry _ | IInitGso _ | IInitSbl _ | IAddChan _ => true
   | _ => false
   end.
-Definition acc_ok (i : instr) (r : list instr) : bool :=
+Definition next_is_acctry (r : list instr) : bool :=
+  match drop_to_frame r with KAccTry _ :: _ => true | _ => false end.
+Definition acc_ok (g : cfg) (i : instr) (r : list instr) : bool :=
   match i with
-  | ISetOpts _ => match r with KAccTry _ :: _ => true | _ => false end
+  | ISetOpts _ => next_is_acctry r
+  | IInitGso _ | IInitSbl _ => if init_guarded g then next_is_acctry r else true
   | _ => acc i
   end.
+(* instructions whose OSError is caught by handle_accept's own try *)
+Definition in_try (g : cfg) (i : instr) : bool :=
+  match i with ISetOpts _ => true | IInitGso _ | IInitSbl _ => init_guarded g | _ => false end.
 
 (* the first catch-all frame of a stack, [d] if there is none *)
 Fixpoint fca (d : option fdt) (l : list instr) : option fdt :=
@@ -53,10 +59,10 @@ Fixpoint fca (d : option fdt) (l : list instr) : option fdt :=
   end.
 
 (* under a listener catch-all there are only instructions of the listener's handler *)
-Fixpoint uok (d : option fdt) (l : list instr) : bool :=
+Fixpoint uok (g : cfg) (d : option fdt) (l : list instr) : bool :=
   match l with
   | [] => true
-  | i :: r => (if is_lst (fca d r) then acc_ok i r else true) && uok d r
+  | i :: r => (if is_lst (fca d r) then acc_ok g i r else true) && uok g d r
   end.
 
 (* below a dispatch-level instruction or a catch-all frame there are only dispatch-level instructions *)
@@ -74,18 +80,18 @@ Definition wsafe (i : instr) : bool :=
   | _ => true
   end.
 
-Record ioL (th : thread_st) : Prop := {
+Record ioL (g : cfg) (th : thread_st) : Prop := {
   l_bad : forallb (fun i => negb (bad i)) (stk th) = true;
-  l_uok : uok None (stk th) = true;
+  l_uok : uok g None (stk th) = true;
   l_dlb : dlb (stk th) = true;
   l_raise : forall x, raising th = Some x ->
       is_lst (fca None (stk th)) = true ->
       match drop_to_frame (stk th) with KAccTry _ :: _ => is_oserror x = true | _ => False end
 }.
 
-Definition LInv (s : state) (tr : list label) : Prop :=
-  no_setup_fault tr ->
-  listener_ok s /\ ioL (getth s IO) /\ forall c, forallb wsafe (stk (getth s (W c))) = true.
+Definition LInv (g : cfg) (s : state) (tr : list label) : Prop :=
+  no_setup_fault tr \/ init_guarded g = true ->
+  listener_ok s /\ ioL g (getth s IO) /\ forall c, forallb wsafe (stk (getth s (W c))) = true.
 
 (* ---- list lemmas ------------------------------------------------------------ *)
 Lemma fca_app : forall d p r, fca d (p ++ r) = fca (fca d r) p.
@@ -97,26 +103,34 @@ Proof.
   destruct i; simpl in *; try discriminate; auto.
 Qed.
 
-Lemma acc_ok_app : forall i r rest, acc_ok i r = true -> acc_ok i (r ++ rest) = true.
-Proof. intros i r rest H. destruct i; simpl in *; auto. destruct r as [|k r]; [discriminate|]. destruct k; auto. Qed.
-
-Lemma uok_app : forall p rest, uok (fca None rest) p = true -> uok None rest = true -> uok None (p ++ rest) = true.
+Lemma next_is_acctry_app : forall r rest, next_is_acctry r = true -> next_is_acctry (r ++ rest) = true.
 Proof.
-  induction p as [|i p IH]; simpl; intros rest Hp Hr; auto.
+  unfold next_is_acctry. induction r as [|k r IH]; simpl; intros rest H; [discriminate|].
+  destruct (is_frame k) eqn:F; simpl; auto.
+Qed.
+Lemma acc_ok_app : forall g i r rest, acc_ok g i r = true -> acc_ok g i (r ++ rest) = true.
+Proof.
+  intros g i r rest H. destruct i; simpl in *; auto; try (apply next_is_acctry_app; auto);
+  destruct (init_guarded g); auto; apply next_is_acctry_app; auto.
+Qed.
+
+Lemma uok_app : forall g p rest, uok g (fca None rest) p = true -> uok g None rest = true -> uok g None (p ++ rest) = true.
+Proof.
+  intro g. induction p as [|i p IH]; simpl; intros rest Hp Hr; auto.
   apply andb_true_iff in Hp. destruct Hp as [Hi Hp].
   rewrite fca_app. rewrite IH by auto. rewrite andb_true_r.
   destruct (is_lst (fca (fca None rest) p)); auto. apply acc_ok_app. auto.
 Qed.
 
-Lemma uok_tail : forall d i r, uok d (i :: r) = true -> uok d r = true.
-Proof. simpl; intros d i r H. apply andb_true_iff in H. tauto. Qed.
+Lemma uok_tail : forall g d i r, uok g d (i :: r) = true -> uok g d r = true.
+Proof. simpl; intros g d i r H. apply andb_true_iff in H. tauto. Qed.
 
-Lemma uok_suffix : forall d p r, uok d (p ++ r) = true -> uok d r = true.
-Proof. induction p; simpl; intros; auto. apply andb_true_iff in H. destruct H. eauto. Qed.
+Lemma uok_suffix : forall g d p r, uok g d (p ++ r) = true -> uok g d r = true.
+Proof. intros g d. induction p; simpl; intros; auto. apply andb_true_iff in H. destruct H. eauto. Qed.
 
-Lemma uok_dl : forall d l, is_lst d = false -> forallb dl l = true -> uok d l = true.
+Lemma uok_dl : forall g d l, is_lst d = false -> forallb dl l = true -> uok g d l = true.
 Proof.
-  induction l as [|i l IH]; simpl; intros Hd H; auto. apply andb_true_iff in H. destruct H as [Hi Hl].
+  intros g d. induction l as [|i l IH]; simpl; intros Hd H; auto. apply andb_true_iff in H. destruct H as [Hi Hl].
   rewrite (fca_dl d l Hl), Hd, IH by auto. reflexivity.
 Qed.
 
@@ -172,11 +186,11 @@ Lemma exec_lsn : forall g t i a s d,
   match exec g t i a s with
   | Blocked => True
   | Norm s' push ls =>
-      srv s' = srv s /\ forallb (fun i => negb (bad i)) push = true /\ uok d push = true /\
+      srv s' = srv s /\ forallb (fun i => negb (bad i)) push = true /\ uok g d push = true /\
       dlb push = true /\ (dl i = false -> existsb (fun i => dl i || is_ca i) push = false)
   | Raise s' x ls =>
       srv s' = srv s /\
-      (is_lst d = true -> has_sfault ls = true \/ (is_oserror x = true /\ exists c, i = ISetOpts c))
+      (is_lst d = true -> (has_sfault ls = true /\ init_guarded g = false) \/ (is_oserror x = true /\ in_try g i = true))
   end.
 Proof.
   intros g t i a s d Hb Hd.
@@ -191,11 +205,12 @@ Proof.
   end; auto.
   all: try (simpl in Hb; discriminate Hb).
   all: destruct (is_lst d) eqn:Ed; [specialize (Hd eq_refl); try discriminate Hd|clear Hd].
-  all: simpl; repeat split; auto.
+  all: destruct (init_guarded g) eqn:Eg; try discriminate.
+  all: simpl; unfold next_is_acctry; simpl; rewrite ?Eg; repeat split; auto.
   all: try (intro; discriminate).
   all: try (rewrite ?Ed; simpl; auto; fail).
-  all: try (left; reflexivity).
-  all: try (right; split; [reflexivity|eexists; reflexivity]).
+  all: try (left; split; reflexivity).
+  all: try (right; split; reflexivity).
   all: try (apply uok_dl; [assumption|]).
   all: try (apply dlb_all_dl).
   all: rewrite ?forallb_app, ?map_p2_dl, ?map_not_bad; simpl; auto.
@@ -208,7 +223,7 @@ Lemma frame_lsn : forall t k x s,
   match frame t k x s with
   | FCatch s' push ls =>
       srv s' = srv s /\ forallb (fun i => negb (bad i)) push = true /\
-      (forall d, is_lst d = false -> uok d push = true) /\ dlb push = true /\
+      (forall g d, is_lst d = false -> uok g d push = true) /\ dlb push = true /\
       existsb (fun i => dl i || is_ca i) push = false /\ has_sfault ls = false
   | FPass s' => srv s' = srv s
   end.
@@ -222,7 +237,7 @@ Proof.
   | |- context [lst_in_map (setth ?s ?c ?v)] => destruct (srv_setth s c v) as (-> & -> & -> & -> & _)
   end; auto.
   all: simpl; repeat split; auto.
-  all: intros d Hd; simpl; rewrite ?Hd; auto.
+  all: intros g d Hd; simpl; rewrite ?Hd; auto.
 Qed.
 
 (* a worker's instructions: closed under execution, and the server's flags are not touched *)
@@ -272,7 +287,7 @@ Proof.
   destruct x; auto. exfalso. apply (H c). auto.
 Qed.
 
-Lemma acc_ok_acc : forall i r, acc_ok i r = true -> acc i = true.
+Lemma acc_ok_acc : forall g i r, acc_ok g i r = true -> acc i = true.
 Proof. destruct i; simpl; auto. Qed.
 
 Lemma srv_set_dead : forall s, srv (set_dead s) = srv s.
@@ -282,16 +297,18 @@ Proof. intros. unfold srv. destruct (srv_setth s t v) as (-> & -> & -> & -> & _)
 Lemma srv_setc_eq : forall s c v, srv (setc s c v) = srv s.
 Proof. intros. unfold srv. destruct (srv_setc s c v) as (-> & -> & -> & -> & _). reflexivity. Qed.
 
-Lemma ioL_empty : forall lx ls lc, ioL (mkTh [] None lx ls lc).
+Lemma ioL_empty : forall g lx ls lc, ioL g (mkTh [] None lx ls lc).
 Proof. intros. constructor; simpl; auto. intros; discriminate. Qed.
 
-Lemma LInv_step : forall g s tr c s' l, LInv s tr -> step g s c = Some (s', l) -> LInv s' (tr ++ l).
+Lemma LInv_step : forall g s tr c s' l, LInv g s tr -> step g s c = Some (s', l) -> LInv g s' (tr ++ l).
 Proof.
   intros g s tr [t a] s' l Inv H Hns.
-  apply no_setup_fault_app in Hns. destruct Hns as [Hn1 Hn2].
+  assert (Hn1 : no_setup_fault tr \/ init_guarded g = true).
+  { destruct Hns as [Hns|Hns]; auto. apply no_setup_fault_app in Hns. tauto. }
+  assert (Hsf : has_sfault l = false \/ init_guarded g = true).
+  { destruct Hns as [Hns|Hns]; auto. apply no_setup_fault_app in Hns. left. apply has_sfault_no. tauto. }
   destruct (Inv Hn1) as (Hl & Hio & Hw). clear Inv.
   assert (Hother : forall u, t <> u -> getth s' u = getth s u) by (intros; eapply step_other_thread; eauto).
-  pose proof (has_sfault_no _ Hn2) as Hsf.
   destruct t as [|c].
   - (* the I/O thread moves *)
     assert (HW : forall c, forallb wsafe (stk (getth s' (W c))) = true).
@@ -307,7 +324,7 @@ Proof.
       * assert (Hbad' : forallb (fun i => negb (bad i)) (k :: rest) = true).
         { rewrite <- D. apply forallb_drop_to_frame. auto. }
         destruct (drop_to_frame_suffix (stk (getth s IO))) as [pre Epre]. rewrite D in Epre.
-        assert (Huok' : uok None (k :: rest) = true) by (eapply uok_suffix; rewrite <- Epre; eauto).
+        assert (Huok' : uok g None (k :: rest) = true) by (eapply uok_suffix; rewrite <- Epre; eauto).
         assert (Hdlb' : dlb (k :: rest) = true) by (eapply dlb_suffix; rewrite <- Epre; eauto).
         assert (Hfca : fca None (stk (getth s IO)) = fca None (k :: rest)) by (rewrite <- D, fca_drop; auto).
         specialize (Lraise x eq_refl). rewrite Hfca in Lraise. rewrite ?D in Lraise.
@@ -377,9 +394,12 @@ Proof.
            ++ eapply uok_tail; eauto.
            ++ eapply dlb_suffix with (p := [i]); eauto.
            ++ intros y Ey El. injection Ey as Ey. subst y.
-              destruct (Praise El) as [Hf|[Hos [cc Ei]]]; [congruence|].
-              subst i. simpl in Luok. rewrite El in Luok. apply andb_true_iff in Luok. destruct Luok as [Ha _].
-              destruct rest as [|k rest]; [discriminate|]. destruct k; try discriminate. simpl. auto.
+              destruct (Praise El) as [[Hf Hg]|[Hos Hin]]; [destruct Hsf; congruence|].
+              simpl in Luok. rewrite El in Luok. apply andb_true_iff in Luok. destruct Luok as [Ha _].
+              assert (Hn : next_is_acctry rest = true).
+              { destruct i; simpl in Hin; try discriminate; simpl in Ha; auto; rewrite Hin in Ha; auto. }
+              unfold next_is_acctry in Hn. destruct (drop_to_frame rest) as [|k r']; [discriminate|].
+              destruct k; try discriminate. auto.
   - (* worker c moves *)
     assert (Hio' : getth s' IO = getth s IO) by (apply Hother; discriminate).
     assert (HWo : forall d, d <> c -> forallb wsafe (stk (getth s' (W d))) = true).
@@ -424,15 +444,23 @@ Qed.
 
 (* C13_listener outside finding F17: every schedule, every fault placement except an errno
    from getsockopt(SO_SNDBUF) / setblocking in HTTPChannel.__init__ *)
-Theorem listener_partial : forall g sched,
-  no_setup_fault (ChanFault.trace g sched) -> listener_ok (ChanFault.run g sched).
+Lemma LInv_all : forall g sched, LInv g (ChanFault.run g sched) (ChanFault.trace g sched).
 Proof.
-  intros g sched H.
-  pose proof (inv_rule_tr g LInv) as R.
-  assert (I0 : LInv init []).
+  intros g sched.
+  pose proof (inv_rule_tr g (LInv g)) as R.
+  assert (I0 : LInv g init []).
   { intros _. split; [|split].
     - repeat split; reflexivity.
     - constructor; simpl; auto. intros; discriminate.
     - intros [|]; reflexivity. }
-  specialize (R I0 (LInv_step g) sched H). tauto.
+  exact (R I0 (LInv_step g) sched).
 Qed.
+
+Theorem listener_partial : forall g sched,
+  no_setup_fault (ChanFault.trace g sched) -> listener_ok (ChanFault.run g sched).
+Proof. intros g sched H. destruct (LInv_all g sched (or_introl H)). auto. Qed.
+
+(* with the repair of F17 (the channel is constructed inside handle_accept's try): every execution *)
+Theorem listener_repaired : forall g sched,
+  init_guarded g = true -> listener_ok (ChanFault.run g sched).
+Proof. intros g sched H. destruct (LInv_all g sched (or_intror H)). auto. Qed.
